@@ -54,4 +54,14 @@ CHECKS = {
         "note": "Trusted: TLC; stores are scripted fakes except 288 real-store cases; exhaustive up to 2x2 hot + 2x2 cold, 3x3 by seeded simulation; racing shard answers are nudged (odd/even shards slow), not forced - soundness rests on Allowed being a set; total/histogram/aggregation merging out of scope. The pinned tree violated the property (fix: 026e845).",
         "technique": "TLA+ transcription + reference (set of allowed outcomes) checked by TLC, scenarios replayed into the real proxy ingestor over scripted store fakes",
     },
+    "C08": {
+        "text": "Lifecycle.tla models one fraction's files through creation, ingest, sealing (in the order of frac.Seal / proxyFrac.Seal), release, deletion and the loader's classification, with crashes between any two file operations and write faults of the index output; TLC checks Starts, NoLoss, NeverPublishIncomplete, OriginalsOutliveSeal, NoResurrection exhaustively for both SkipSortDocs modes. Every crash state of the sealing/release phase is materialised from real files and loaded by a real store (twice, with an ingest in between); the real sealing writer is run with its k-th write failing for every k; recorded real seals are validated against LifecycleTrace.tla.",
+        "note": "Trusted: TLC; file operations atomic and durable in program order, only temp-file contents torn; write faults injected into the index output only (not the sorted-docs file, not sync/rename). The pinned tree swallowed ID/LID block write errors (fix: 864f764).",
+        "technique": "TLA+ life-cycle state machine model-checked by TLC; crash states replayed on the real loader; fault injection for every write; hook-recorded traces validated against the spec",
+    },
+    "C15": {
+        "text": "Lifecycle.tla (creation, deletion of sealed and active fractions, loader; Starts, NoLoss, NoResurrection) and Retention.tla (only the oldest fraction may be shifted out). Every crash state of the model is materialised from real files with a missing/valid/corrupt/truncated .frac-cache next to an untouched neighbour fraction and started twice on the real store; real maintenance passes with tiny FracSize/TotalSize are recorded through the verif hooks and validated against LifecycleTrace.tla and Retention.tla, including the deletion of an active fraction.",
+        "note": "Trusted: TLC; one fraction's life cycle at a time (plus a neighbour); file operations atomic and durable in program order; .frac-cache rewrite crash points are covered by the four cache-file variants, not by hooks inside SaveCacheToDisk. Two defects of the pinned tree were repaired (fix: badff25, b2e7d41).",
+        "technique": "TLA+ life-cycle and retention-order specs model-checked by TLC; crash states replayed on the real loader; hook-recorded maintenance traces validated against the specs",
+    },
 }
